@@ -109,7 +109,7 @@ def run_port(rows, stream):
                 st["not_keeps"].append({"id": r["id"], "src": src[:300], "first_node_outside_class": f[4] if len(f) > 4 else "",
                                         "content_equals_expected": (f[5] == "1") if len(f) > 5 else None})
         if len(f) > 8:
-            # C14_parsed_trees_keep_all_partial, instance by instance: error-free + strictTree => keepsAllOn covered
+            # C14_parsed_trees_keep_all, instance by instance: error-free + strictTree => keepsAllOn covered
             # (and => keepsAll when the tree has only covered node kinds); a text that is not strict has a lenient shape
             strict, cov, keeps_on = f[6] == "1", f[7] == "1", f[8] == "1"
             st["strict"] += strict
@@ -171,7 +171,7 @@ def attribute(row, known_by_class):
 def main(ctx, args):
     ctx.assumptions += [
         "Model/CstPrint.lean is a literal port of every function of mimium-fmt/src/cst_print.rs (bodies pinned by hash, tools/cst_print.json; dispatch table re-extracted); tie = the text rendered by the Lean pipeline (ported tokenizer, preparse, grammar, printer, layout engine) equals the real pretty_print_cst output at every (width, indent) the harness uses, on every text of this run; display widths of non-ASCII tokens are taken from the crate",
-        "the three clauses (same AST, comments, fixed point) are still DECIDED by running the real formatter with the real parser as oracle; the theorems cover the content clause on the class keepsAll; that the trees of the ported parser are in the class is PROVED for all token lists (C14_parsed_trees_keep_all_partial: no parser error + strictTree => keepsAllOn covered kinds, all kinds but ParamList, LambdaExpr, RecordExpr, MacroExpansion, TupleType, RecordType) and, for those six kinds, still evaluated by the driver on every parsed text",
+        "the three clauses (same AST, comments, fixed point) are still DECIDED by running the real formatter with the real parser as oracle; the theorems cover the content clause on the class keepsAll; that the trees of the ported parser are in the class is PROVED for all token lists and all node kinds (C14_parsed_trees_keep_all: no parser error + strictTree => keepsAll; shape invariant of Model/CstGrammar.lean) and, in addition, evaluated by the driver on every parsed text of the run (an instance that contradicts the theorem is a VIOLATION)",
         "strictTree (Model/CstStrict.lean) excludes the shapes parse_cst accepts without an error although the printer has no slot for them (a comma that follows no parameter, an assignment as if-condition / then-branch / macro argument): open findings C14-stray-comma, C14-assign-in-if, C14-assign-in-macro-arg, whose witnesses are replayed first in every run",
         "Model/NewlineRule.lean is a hand port of the expression core of cst_parser.rs on token classes (atoms, infix/prefix operators, calls, field access, indexing, parens, tuples, arrays); tie = green-tree shapes compared on random token sequences with random line breaks in this run (error cases: only the error flag is compared)",
         "Model/Pretty.lean is a hand port of pretty-0.12.4 render.rs (best/fitting) restricted to Nil/Append/Group/FlatAlt/Nest/Hardline/text; tie = byte-exact comparison on random documents in this run",
@@ -405,7 +405,7 @@ def main(ctx, args):
             ctx.notes.append("positions listed in F14 not exercised this run: " + ", ".join(unseen))
     if port_thm_broken:
         best = min(port_thm_broken, key=lambda d: len(d["src"]))
-        ctx.violation(f"the model contradicts C14_parsed_trees_keep_all_partial on {len(port_thm_broken)} texts (smallest: {best['id']}): error-free, strictTree, "
+        ctx.violation(f"the model contradicts C14_parsed_trees_keep_all on {len(port_thm_broken)} texts (smallest: {best['id']}): error-free, strictTree, "
                       "but a covered node fails its ok test — the theorem is proved for all inputs, so the driver and the proved model have diverged",
                       dict(best, cases=len(port_thm_broken)), found_input=False)
     if port_not_strict and not args.replay:
@@ -434,7 +434,7 @@ def main(ctx, args):
                          "texts_in_class_keepsAll": port_stats["keeps"], "texts_outside_keepsAll(sample)": port_not_keeps[:5],
                          "texts_strictTree": port_stats["strict"], "texts_strictTree_and_only_covered_kinds": port_stats["strict_and_covered"],
                          "texts_keepsAllOn_covered": port_stats["keeps_on_covered"], "texts_not_strict(sample)": port_not_strict[:6],
-                         "instances_contradicting_C14_parsed_trees_keep_all_partial": len(port_thm_broken),
+                         "instances_contradicting_C14_parsed_trees_keep_all": len(port_thm_broken),
                          "comparison": "FNV-1a of the whole output text, every (width, indent) the harness formats the text at"},
         "parser_cases": nl_cases, "parser_cases_nontrivial": len(nl_nontriv), "parser_cases_both_report_errors": nl_both_err,
         "impl_property_failures": stats["texts_failing"],
